@@ -1799,12 +1799,75 @@ def single_assigned_locals(fn) -> dict[str, ast.expr]:
     return {k: v[0] for k, v in seen.items() if len(v) == 1 and v[0] is not None and k not in params}
 
 
-def resolver(fn):
+class _Subst(ast.NodeTransformer):
+    def __init__(self, mapping: dict[str, ast.expr]):
+        self.mapping = mapping
+
+    def visit_Name(self, node: ast.Name):  # noqa: N802
+        return self.mapping.get(node.id, node) if isinstance(node.ctx, ast.Load) else node
+
+
+def resolver(fn, cls: ast.ClassDef | None = None):
+    """Expression resolver for a constructor: follows single-assignment locals, `self.<attr>` to the (single) value the
+    constructor assigns to it, and calls of same-class helpers whose body is one `return <expr>` (arguments bound
+    positionally or by keyword)."""
+    import copy
     loc = single_assigned_locals(fn)
+    self_name = (list(fn.args.posonlyargs) + list(fn.args.args))[0].arg
+    attrs: dict[str, list] = {}
+    for n in ast.walk(fn):
+        tg = n.targets if isinstance(n, ast.Assign) else [n.target] if isinstance(n, (ast.AnnAssign, ast.AugAssign)) else []
+        for t in tg:
+            if isinstance(t, ast.Attribute) and isinstance(t.value, ast.Name) and t.value.id == self_name:
+                attrs.setdefault(t.attr, []).append(getattr(n, "value", None) if not isinstance(n, ast.AugAssign) else None)
+
+    def helper_body(call: ast.Call):
+        if cls is None or not isinstance(call.func, ast.Attribute):
+            return None
+        recv = call.func.value
+        is_self = isinstance(recv, ast.Name) and recv.id in (self_name, cls.name)
+        is_type = isinstance(recv, ast.Call) and ast.unparse(recv) == f"type({self_name})"
+        if not (is_self or is_type):
+            return None
+        m = next((x for x in cls.body if isinstance(x, ast.FunctionDef) and x.name == call.func.attr), None)
+        if m is None or m.args.vararg or m.args.kwarg:
+            return None
+        body = [b for b in m.body if not (isinstance(b, ast.Expr) and isinstance(b.value, ast.Constant))]
+        if len(body) != 1 or not isinstance(body[0], ast.Return) or body[0].value is None:
+            return None
+        static = any(ast.unparse(d) == "staticmethod" for d in m.decorator_list)
+        params = list(m.args.posonlyargs) + list(m.args.args)
+        mapping: dict[str, ast.expr] = {}
+        if not static:
+            mapping[params[0].arg] = ast.Name(id=self_name, ctx=ast.Load())
+            params = params[1:]
+        try:
+            bound = call_args(call, [q.arg for q in params] + [q.arg for q in m.args.kwonlyargs], m.name)
+        except Unsupported:
+            return None
+        defaults = dict(zip([q.arg for q in params][len(params) - len(m.args.defaults):], m.args.defaults))
+        defaults.update({q.arg: d for q, d in zip(m.args.kwonlyargs, m.args.kw_defaults) if d is not None})
+        for q in params + list(m.args.kwonlyargs):
+            if q.arg in bound:
+                mapping[q.arg] = bound[q.arg]
+            elif q.arg in defaults:
+                mapping[q.arg] = defaults[q.arg]
+            else:
+                return None
+        return ast.fix_missing_locations(_Subst(mapping).visit(copy.deepcopy(body[0].value)))
 
     def resolve(e: ast.expr, depth: int = 0) -> ast.expr:
-        while isinstance(e, ast.Name) and e.id in loc and depth < 10:
-            e, depth = loc[e.id], depth + 1
+        while depth < 12:
+            depth += 1
+            if isinstance(e, ast.Name) and e.id in loc:
+                e = loc[e.id]
+            elif isinstance(e, ast.Attribute) and isinstance(e.value, ast.Name) and e.value.id == self_name \
+                    and len(attrs.get(e.attr, [])) == 1 and attrs[e.attr][0] is not None:
+                e = attrs[e.attr][0]
+            elif isinstance(e, ast.Call) and helper_body(e) is not None:
+                e = helper_body(e)
+            else:
+                break
         return e
     return resolve
 
@@ -1921,7 +1984,7 @@ def generate(repo: pathlib.Path) -> str:
 
     # ---- constructor of the tracker
     init = find_method(trk_cls, "__init__")
-    resolve = resolver(init)
+    resolve = resolver(init, trk_cls)
     init_status = min_dur = None
     timers = 0
     streams = set()
@@ -1966,8 +2029,12 @@ def generate(repo: pathlib.Path) -> str:
                 streams.add(src)
     if init_status is None or min_dur is None or timers != 2 or len(streams) != 2:
         raise Unsupported("BatteryStatusTracker.__init__: status / blocking / timers not recognised")
-    if sum(1 for n in ast.walk(init) if isinstance(n, ast.Call) and ast.unparse(n.func) == "Timer") != 2:
-        raise Unsupported("BatteryStatusTracker.__init__: timers")
+    for n in ast.walk(trk_cls):  # no other timer anywhere in the class
+        if isinstance(n, ast.Call) and ast.unparse(n.func) == "Timer":
+            ta = call_args(n, ["interval", "missed_tick_policy"], "Timer")
+            if set(ta) != {"interval", "missed_tick_policy"} or ast.unparse(resolve(ta["interval"])) != "max_data_age" \
+                    or ast.unparse(resolve(ta["missed_tick_policy"])) != "SkipMissedAndDrift()":
+                raise Unsupported(f"BatteryStatusTracker: timer {ast.unparse(n)}")
     correct_default = None
     for n in stream_cls.body:
         if isinstance(n, ast.AnnAssign) and isinstance(n.target, ast.Name) and n.target.id == "last_msg_correct":
@@ -2007,7 +2074,7 @@ def generate(repo: pathlib.Path) -> str:
     out.append(translate_pool_update(ctx, upd))
     # initial pool status and the delegating accessor
     pinit = find_method(pool_cls, "__init__")
-    presolve = resolver(pinit)
+    presolve = resolver(pinit, pool_cls)
     ok = False
     for n in ast.walk(pinit):
         if isinstance(n, (ast.Assign, ast.AnnAssign)) and n.value is not None \
